@@ -1308,6 +1308,132 @@ func c08Gen(c *Ctx) {
 			emit("truncated/entries-"+kind, b[:cut])
 		}
 	}
+	c08HeaderAndShortLists(c, emit)
+}
+
+// c08HeaderAndShortLists: two classes of field values in which the three size fields have to be read TOGETHER,
+// each list standing in front of further data - so that a decoder that miscounts does not simply run into the end
+// of the input (which is an error by itself) but takes bytes that belong to what follows:
+//
+// HEADER / DATA-BEHIND: lists of every type (three X.509 sizes) with 0..2 entries and a HeaderSize from a sweep
+// around the multiples of the list's SignatureSize (1, 15, 16, 28, 100, Size-1, Size, Size+1, 2xSize, 2xSize+1,
+// 3xSize) - both as a list that really carries a header of that many bytes (ListSize counts it) and as a header-less
+// list whose HeaderSize field alone is set (ListSize unchanged, so the header eats entries) - followed by nothing, by
+// exactly HeaderSize bytes that are no list, by HeaderSize + SignatureSize such bytes, by HeaderSize + 28 zero bytes,
+// by one well-formed list and by two (at least HeaderSize bytes long). The size equation of the statement counts the
+// header: a decoder that reads it and still takes ListSize - 28 bytes of entries cuts HeaderSize / SignatureSize
+// entries out of the bytes BEHIND the list.
+//
+// SHORT: headers whose ListSize is below 28 (every value 0..27) crossed with every SignatureSize 16..64, for every
+// type, alone, in front of a well-formed list and between two (quick tier: one of the three positions per
+// combination, rotating; thorough: all three, and HeaderSize 4 and 16 besides 0). ListSize - 28 - HeaderSize is
+// negative for all of them: no count of signatures satisfies the equation, whatever the remainder of a division says.
+func c08HeaderAndShortLists(c *Ctx, emit func(cls string, b []byte)) {
+	// a generator of its own, so that the cases above stay what they were
+	sub := &Ctx{Rng: mrand.New(mrand.NewSource(c.Seed*86028121 + 17 + int64(c.Shard)*1000003)), Thorough: c.Thorough}
+	cat := func(xs ...[]byte) []byte {
+		var o []byte
+		for _, x := range xs {
+			o = append(o, x...)
+		}
+		return o
+	}
+	// one or more well-formed lists of handled types, at least n bytes long
+	wfAtLeast := func(n, lists int) []byte {
+		var o []byte
+		for k := 0; k < lists || len(o) < n; k++ {
+			l := genList{typ: tSHA256, size: 48}
+			switch sub.Rng.Intn(3) {
+			case 1:
+				l.typ, l.size = tX509, 16+[]int{1, 17, 40, 100}[sub.Rng.Intn(4)]
+			case 2:
+				l.typ, l.size = tEXT, 17
+			}
+			for e := 1 + sub.Rng.Intn(2); e > 0; e-- {
+				l.sigs = append(l.sigs, [2][]byte{randBytes(sub, 16), randBytes(sub, l.size-16)})
+			}
+			o = append(o, l.enc()...)
+		}
+		return o
+	}
+	noList := func(n int) []byte { // n bytes that are no list: a SignatureSize field of zero, if there is room for one
+		g := randBytes(sub, n)
+		if n > 0 {
+			g[0] |= 1
+		}
+		for i := 24; i < 28 && i < n; i++ {
+			g[i] = 0
+		}
+		return g
+	}
+	type ts struct {
+		typ  []byte
+		size int
+	}
+	idx := 0
+	for _, t := range []ts{{tX509, 17}, {tX509, 33}, {tX509, 56}, {tSHA256, 48}, {tEXT, 17}, {tSHA1, 36}, {tUnknown, 20}} {
+		for nsig := 0; nsig <= 2; nsig++ {
+			for _, hs := range []int{1, 15, 16, 28, 100, t.size - 1, t.size, t.size + 1, 2 * t.size, 2*t.size + 1, 3 * t.size} {
+				if idx++; !c.Mine(idx) {
+					continue
+				}
+				if c.NFailures() >= 8 {
+					return
+				}
+				var sigs [][2][]byte
+				for k := 0; k < nsig; k++ {
+					sigs = append(sigs, [2][]byte{randBytes(sub, 16), randBytes(sub, t.size-16)})
+				}
+				declared := encodeList(t.typ, randBytes(sub, hs), t.size, sigs)
+				fieldOnly := putU32(encodeList(t.typ, nil, t.size, sigs), 20, uint32(hs))
+				for vi, l := range [][]byte{declared, fieldOnly} {
+					cls := "header/" + []string{"declared", "field-only"}[vi]
+					emit(cls+"/alone", l)
+					emit(cls+"/+HeaderSize-bytes", cat(l, noList(hs)))
+					emit(cls+"/+HeaderSize+Size-bytes", cat(l, noList(hs+t.size)))
+					emit(cls+"/+zeros", cat(l, make([]byte, hs+28)))
+					emit(cls+"/+list", cat(l, wfAtLeast(hs, 1)))
+					emit(cls+"/+lists", cat(l, wfAtLeast(hs, 2)))
+				}
+			}
+		}
+	}
+	hss := []int{0}
+	if c.Thorough {
+		hss = []int{0, 4, 16}
+	}
+	for ti, typ := range [][]byte{tX509, tSHA256, tEXT, tSHA1, tUnknown} {
+		for ls := 0; ls < 28; ls++ {
+			for size := 16; size <= 64; size++ {
+				if idx++; !c.Mine(idx) {
+					continue
+				}
+				if c.NFailures() >= 8 {
+					return
+				}
+				for _, hs := range hss {
+					h := make([]byte, 28)
+					copy(h, typ)
+					binary.LittleEndian.PutUint32(h[16:], uint32(ls))
+					binary.LittleEndian.PutUint32(h[20:], uint32(hs))
+					binary.LittleEndian.PutUint32(h[24:], uint32(size))
+					for pos := 0; pos < 3; pos++ {
+						if !c.Thorough && pos != (ls*7+size+ti)%3 {
+							continue
+						}
+						switch pos {
+						case 0:
+							emit("listsize-below-28/alone", h)
+						case 1:
+							emit("listsize-below-28/first", cat(h, wfAtLeast(0, 1)))
+						default:
+							emit("listsize-below-28/between", cat(wfAtLeast(0, 1), h, wfAtLeast(0, 1)))
+						}
+					}
+				}
+			}
+		}
+	}
 }
 
 func init() {
@@ -1317,7 +1443,7 @@ func init() {
 		Eval:   c07Eval, Gen: c07Gen,
 	})
 	register("C08", &PropDef{
-		Rule:   "near-grammar byte strings derived from generated well-formed streams of handled types: EVERY truncation point, sweeps of ListSize / HeaderSize / SignatureSize of the last list over {0,1,15,16,17,27,28,29,exact±1,+Size,2x,2^31,2^32-1,...}, trailing garbage / zeros of 1..40 bytes, a valid stream followed by the first 16/20/24/28 bytes of another list, unsupported types, single bit flips; plus the repository fixtures and cuts of them. Sources that FAIL instead of ending: every generated well-formed stream (and every fixture; positions sampled for streams above 800 bytes) is also handed to ReadSignatureDatabase and ReadSignatureList through a reader that delivers the first k bytes and then fails with a non-EOF error (I/O error, closed file, deadline exceeded, closed pipe; the error arriving after or together with the last bytes) for EVERY k in 0..len - all kinds and both modes at k = 0 and at every list boundary, where a clean end would be legitimate, the kind rotating elsewhere; oracle: the input did not end, so an error that does not match io.EOF is required and no database / list may be returned. SIZE CLASSES (streams kept in the case as a description - layout and salt - and built when evaluated; all entries pseudo-random and different, so every decoded entry is held against its own bytes of the input and the first differing entry is named): SHA-256, X.509 and externally-managed lists with 127 / 128 / 129 / 256 / 257 / 260 / 385 / 512 / 1023 entries (counts around powers of two, where a decoder that reads entries in batches changes its path), ONE list whose body exceeds 64 KiB (1366, 1365+1366, 2200 SHA-256 entries; 4 certificates of 20 000 bytes, 3 of 40 000, 2 of exactly 64 KiB, of 64 KiB + 1 and of 90 000 bytes); LIST BOUNDARIES AT POWERS OF TWO: streams in which a list ends exactly at offset 2^12, 2^16 and 2^20 (a stream longer than 1 MiB; thorough: 2^8..2^22, 2^24), followed by a further list or lists (which must be decoded), by nothing, by bytes that are no list or by a cut-off header (an error, never a shorter database). Streams above 100 KiB are judged against the harness's own walk of the stream (walkSpec, written from the layout in the statement); on every smaller stream the Lean Spec codec is asked as well and the two must agree (a disagreement is a tie failure). LISTS WITHOUT ENTRIES (ListSize = 28 + HeaderSize, where the size equation holds for any SignatureSize and only the explicit bounds decide): types X.509 (also with a 3-byte header), SHA-256, externally-managed, SHA-1, unknown x SignatureSize in 0..18, 27, 28, 47..49, 2^16, 2^31-1, 2^31, 2^32-1, each alone, twice, in front of, behind and between well-formed lists. ENTRY CLASSES random bytes never produce (80 streams + truncations of them): one entry several times in a list, PEM-shaped X.509 entry bytes, equal data under different owners, all-zero entries - accepted only as exactly the lists the layout defines, never as a shorter, de-duplicated or re-coded database. ENTRY POINTS: on every stream SignatureDatabase.Unmarshal (receiver that held another list) and ReadSignatureList on the first list must give the verdict / lists of ReadSignatureDatabase and consume the whole buffer / exactly ListSize bytes, and Marshal (empty destination and one holding content), WriteSignatureDatabase into a plain writer and the lists' own Bytes() must give the bytes of Bytes(). Non-trivial: non-empty; distinct = distinct byte strings (x failure position, kind, mode).",
+		Rule:   "near-grammar byte strings derived from generated well-formed streams of handled types: EVERY truncation point, sweeps of ListSize / HeaderSize / SignatureSize of the last list over {0,1,15,16,17,27,28,29,exact±1,+Size,2x,2^31,2^32-1,...}, trailing garbage / zeros of 1..40 bytes, a valid stream followed by the first 16/20/24/28 bytes of another list, unsupported types, single bit flips; plus the repository fixtures and cuts of them. Sources that FAIL instead of ending: every generated well-formed stream (and every fixture; positions sampled for streams above 800 bytes) is also handed to ReadSignatureDatabase and ReadSignatureList through a reader that delivers the first k bytes and then fails with a non-EOF error (I/O error, closed file, deadline exceeded, closed pipe; the error arriving after or together with the last bytes) for EVERY k in 0..len - all kinds and both modes at k = 0 and at every list boundary, where a clean end would be legitimate, the kind rotating elsewhere; oracle: the input did not end, so an error that does not match io.EOF is required and no database / list may be returned. SIZE CLASSES (streams kept in the case as a description - layout and salt - and built when evaluated; all entries pseudo-random and different, so every decoded entry is held against its own bytes of the input and the first differing entry is named): SHA-256, X.509 and externally-managed lists with 127 / 128 / 129 / 256 / 257 / 260 / 385 / 512 / 1023 entries (counts around powers of two, where a decoder that reads entries in batches changes its path), ONE list whose body exceeds 64 KiB (1366, 1365+1366, 2200 SHA-256 entries; 4 certificates of 20 000 bytes, 3 of 40 000, 2 of exactly 64 KiB, of 64 KiB + 1 and of 90 000 bytes); LIST BOUNDARIES AT POWERS OF TWO: streams in which a list ends exactly at offset 2^12, 2^16 and 2^20 (a stream longer than 1 MiB; thorough: 2^8..2^22, 2^24), followed by a further list or lists (which must be decoded), by nothing, by bytes that are no list or by a cut-off header (an error, never a shorter database). Streams above 100 KiB are judged against the harness's own walk of the stream (walkSpec, written from the layout in the statement); on every smaller stream the Lean Spec codec is asked as well and the two must agree (a disagreement is a tie failure). LISTS WITHOUT ENTRIES (ListSize = 28 + HeaderSize, where the size equation holds for any SignatureSize and only the explicit bounds decide): types X.509 (also with a 3-byte header), SHA-256, externally-managed, SHA-1, unknown x SignatureSize in 0..18, 27, 28, 47..49, 2^16, 2^31-1, 2^31, 2^32-1, each alone, twice, in front of, behind and between well-formed lists. HEADER WITH DATA BEHIND THE LIST: lists of every type (X.509 of three sizes, SHA-256, externally-managed, SHA-1, unknown) with 0..2 entries and a HeaderSize swept around the multiples of the list's SignatureSize (1, 15, 16, 28, 100, Size-1, Size, Size+1, 2xSize, 2xSize+1, 3xSize), as a list that carries a header of that many bytes (ListSize counts it) and as a header-less list whose HeaderSize field alone is set, each alone and FOLLOWED by exactly HeaderSize bytes that are no list, by HeaderSize + SignatureSize such bytes, by HeaderSize + 28 zero bytes, by one and by two well-formed lists of at least HeaderSize bytes - the size equation counts the header, so a success must return exactly the lists of the layout and may not cut entries out of the bytes behind the list. LISTSIZE BELOW 28 x SIGNATURESIZE: every ListSize 0..27 crossed with every SignatureSize 16..64 for all five types (HeaderSize 0; thorough also 4 and 16), alone, in front of a well-formed list and between two (quick: one of the three positions per combination, rotating; thorough: all three) - no count of signatures satisfies the equation, so all of them are errors, never an empty list followed by the rest of the database. ENTRY CLASSES random bytes never produce (80 streams + truncations of them): one entry several times in a list, PEM-shaped X.509 entry bytes, equal data under different owners, all-zero entries - accepted only as exactly the lists the layout defines, never as a shorter, de-duplicated or re-coded database. ENTRY POINTS: on every stream SignatureDatabase.Unmarshal (receiver that held another list) and ReadSignatureList on the first list must give the verdict / lists of ReadSignatureDatabase and consume the whole buffer / exactly ListSize bytes, and Marshal (empty destination and one holding content), WriteSignatureDatabase into a plain writer and the lists' own Bytes() must give the bytes of Bytes(). Non-trivial: non-empty; distinct = distinct byte strings (x failure position, kind, mode).",
 		Assume: []string{},
 		Eval:   c08Eval, Gen: c08Gen,
 	})
